@@ -14,6 +14,13 @@ RR='amd/timing/cp/internal/dispatching/roundrobin.go'
 MA='amd/driver/internal/memoryallocator.go'
 EMU='amd/emu/computeunit.go'
 TIM='amd/timing/cu/wfdispatcher.go'
+DEV='amd/driver/internal/device.go'
+U_MULTI="""	dev := d.ActualGPUs[d.nextActualGPUIndex]
+	pAddrs = dev.allocateMultiplePages(numPages)
+	d.nextActualGPUIndex = (d.nextActualGPUIndex + 1) % len(d.ActualGPUs)
+	return pAddrs
+}
+"""
 MUTS={
  # ---- C10
  'c10-m1-free-keeps-pagetable-entry': (MA, "	a.pageTable.Remove(page.PID, page.VAddr)\n", "	// a.pageTable.Remove(page.PID, page.VAddr)\n"),
@@ -30,6 +37,56 @@ MUTS={
  'c10-m10-buddy-free-merges-to-wrong-side': ('amd/driver/internal/devicebuddymemstate.go', "			if buddy < addr {\n				addr = buddy\n			}", "			if buddy > addr {\n				addr = buddy\n			}"),
  'c10-m11-buddy-block-freed-one-page-early': ('amd/driver/internal/buddystructures.go', "	return bt.numOfPages == 0", "	return bt.numOfPages <= 1"),
  'c10-m12-unaligned-paddr': ('amd/driver/internal/devicememstateinterface.go', "	for addr := dms.initialAddress; addr < endAddr; addr += pageSize {\n		dms.addSinglePAddr(addr)", "	for addr := dms.initialAddress; addr < endAddr; addr += pageSize {\n		dms.addSinglePAddr(addr + (addr>>dms.log2PageSize)%2*64)"),
+ # ---- C10, unified-device paths (added after seed4-c10 was missed). u2 is a placement-policy change that breaks no
+ # C10 invariant (expected: no new key); all others must be caught.
+ 'c10-u0-seed4-spread-drops-remainder': (DEV, U_MULTI, """	numGPUs := len(d.ActualGPUs)
+	numPagesPerGPU := numPages / numGPUs
+	pAddrs = make([]uint64, numPages)
+	for i := 0; i < numGPUs; i++ {
+		dev := d.ActualGPUs[(d.nextActualGPUIndex+i)%numGPUs]
+		copy(pAddrs[i*numPagesPerGPU:],
+			dev.allocateMultiplePages(numPagesPerGPU))
+	}
+	d.nextActualGPUIndex = (d.nextActualGPUIndex + 1) % numGPUs
+	return pAddrs
+}
+"""),
+ 'c10-u1-unified-single-page-ignores-full-members': (DEV, "		if dev.MemState.noAvailablePAddrs() {\n			continue\n		}\n\n		devSelected = dev\n", "		devSelected = dev\n"),
+ 'c10-u1b-unified-single-page-always-first-member': (DEV, "		dev := d.ActualGPUs[devIndex]\n", "		dev := d.ActualGPUs[devIndex*0]\n"),
+ 'c10-u2-multi-page-round-robin-not-advanced': (DEV, U_MULTI, """	dev := d.ActualGPUs[d.nextActualGPUIndex]
+	pAddrs = dev.allocateMultiplePages(numPages)
+	return pAddrs
+}
+"""),
+ 'c10-u3-multi-page-round-robin-without-modulo': (DEV, U_MULTI, """	dev := d.ActualGPUs[d.nextActualGPUIndex]
+	pAddrs = dev.allocateMultiplePages(numPages)
+	d.nextActualGPUIndex = d.nextActualGPUIndex + 1
+	return pAddrs
+}
+"""),
+ 'c10-u4a-distribute-last-remainder-page-skipped': ('amd/driver/distributor.go', "	for i := uint64(0); i < remainingPages; i++ {", "	for i := uint64(0); i+1 < remainingPages; i++ {"),
+ 'c10-u4b-distribute-last-remainder-page-skipped-count-intact': ('amd/driver/distributor.go', "	for i := uint64(0); i < remainingPages; i++ {", "	if remainingPages > 0 {\n		byteAllocatedOnEachGPU[lastAllocatedGPU] += pageSize\n	}\n	for i := uint64(0); i+1 < remainingPages; i++ {"),
+ 'c10-u5-unify-member-lookup-off-by-one': ('amd/driver/api.go', "		dev.ActualGPUs = append(dev.ActualGPUs, d.devices[gpuID])", "		dev.ActualGPUs = append(dev.ActualGPUs, d.devices[gpuID-1])"),
+ 'c10-u6-free-returns-page-to-recorded-device': (MA, "	deviceID := a.deviceIDByPAddr(page.PAddr)\n	dState := a.devices[deviceID].MemState", "	deviceID := int(page.DeviceID)\n	dState := a.devices[deviceID].MemState"),
+ 'c10-u7-spread-remainder-slot-repeats-a-page': (DEV, U_MULTI, """	numGPUs := len(d.ActualGPUs)
+	per, rem := numPages/numGPUs, numPages%numGPUs
+	if per == 0 {
+		per, rem = numPages, 0
+		numGPUs = 1
+	}
+	for i := 0; i < numGPUs; i++ {
+		dev := d.ActualGPUs[(d.nextActualGPUIndex+i)%len(d.ActualGPUs)]
+		pages := dev.allocateMultiplePages(per)
+		pAddrs = append(pAddrs, pages...)
+		if i < rem {
+			pAddrs = append(pAddrs, pages[len(pages)-1])
+		}
+	}
+	d.nextActualGPUIndex = (d.nextActualGPUIndex + 1) % len(d.ActualGPUs)
+	return pAddrs
+}
+"""),
+ 'c10-u8-remap-onto-unified-records-first-member-range-check-off': (MA, "	return pAddr >= state.getInitialAddress() &&\n		pAddr < state.getInitialAddress()+state.getStorageSize()", "	return pAddr >= state.getInitialAddress() &&\n		pAddr <= state.getInitialAddress()+state.getStorageSize()"),
  # ---- C08
  'c08-n1-partial-size-off-by-one': ('amd/kernels/gridbuilder.go', "		xToAllocate := min(xLeft, int(b.packet.WorkgroupSizeX))", "		xToAllocate := min(xLeft+1, int(b.packet.WorkgroupSizeX))"),
  'c08-n2-exec-mask-shifted': ('amd/kernels/gridbuilder.go', "wf.InitExecMask |= 1 << uint32(inWGID%wavefrontSize)", "wf.InitExecMask |= 1 << uint32((inWGID+1)%wavefrontSize)"),
@@ -89,7 +146,8 @@ if __name__=='__main__':
     base=sys.argv[1]; which=sys.argv[2:]
     restore(base)
     baseline={}
-    for prop in ('C10','C08'):
+    need={('C10' if n.startswith('c10') else 'C08') for n in (which or MUTS) if n in MUTS}
+    for prop in sorted(need):
         rc,k,_=run(prop); baseline[prop]=set(k); print(f'BASELINE {base} {prop}: exit {rc} keys {k}',flush=True)
     for name in (which or MUTS):
         if name not in MUTS: continue
